@@ -1,4 +1,5 @@
 import re
+import copy
 from ..css_abbreviation import parse as abbreviation, tokens, CSSValue, CSSProperty, FunctionCall
 from ..config import Config
 from ..list_utils import some, get_item
@@ -136,7 +137,9 @@ def resolve_as_property(node: CSSProperty, snippet: CSSSnippetProperty, config: 
         # We should auto-select inserted value only if there’s multiple value
         # choice
         if len(snippet.value) == 1 or some(has_field, default_value):
-            node.value = default_value
+            # Snippets may be shared between calls via cache: give node its own
+            # copy of tokens since numeric values are updated in-place later
+            node.value = [CSSValue(copy_tokens(v.value)) for v in default_value]
         else:
             node.value = list(map(lambda n: wrap_with_field(n, config), default_value))
 
@@ -268,6 +271,11 @@ def resolve_numeric_value(node: CSSProperty, config: Config):
                 elif t.value != 0 and node.name not in unitless:
                     opt_name = 'stylesheet.floatUnit' if '.' in t.raw_value else 'stylesheet.intUnit'
                     t.unit = config.options.get(opt_name, '')
+
+
+def copy_tokens(token_list: list):
+    "Creates shallow copies of given tokens so they can be safely modified"
+    return [copy.copy(t) for t in token_list]
 
 
 def has_field(value: CSSValue):
